@@ -17,7 +17,8 @@
 
 import logging
 import threading
-from concurrent.futures import Future
+from concurrent.futures import Future, CancelledError
+from concurrent.futures import TimeoutError as FutureTimeoutError
 from concurrent.futures import ThreadPoolExecutor
 
 
@@ -75,8 +76,10 @@ class TaskHandler:
     def flush(self):
         """Await completion of all pending tasks."""
         self._open = False
-        if len(self._pending) > 0:
-            for key in dict(self._pending).keys():
-                get = self._pending.get(key)
-                if get is not None:
-                    self._pending[key].result(10)
+        # wait on a copy of the futures: completed tasks remove themselves from the pending map while we iterate
+        for future in list(self._pending.values()):
+            try:
+                # use exception() not result(): a failed task has already been logged, it must not fail the flush
+                future.exception(10)
+            except (FutureTimeoutError, CancelledError):
+                logging.warning("Task did not complete during flush: %s", future)
